@@ -60,6 +60,9 @@ func (fr *Frame) exec(insn ssa.Instruction, st *State) {
 		fr.slice(x, st)
 	case *ssa.Store:
 		addr := fr.val(x.Addr)
+		if la, ok := fr.lateAddr(x.Addr, x, st); ok {
+			addr = la
+		}
 		v := fr.val(x.Val)
 		fr.checkStore(x.Addr, addr, x.Val.Type(), v, x.Pos())
 		st.store(addr, x.Val.Type(), v)
@@ -838,4 +841,68 @@ func (fr *Frame) mulOp(a, b *Term) *Term {
 		a, b = b, a
 	}
 	return UF("mul64", a.Sort, a, b)
+}
+
+
+// lateAddr: evaluation order of assignments.  For `p.f.g = call()` go/ssa evaluates the
+// pointer operands of the left-hand side (the load of p.f) before the call on the right-hand
+// side, the gc compiler - whose binaries are what runs - evaluates them when the assignment is
+// carried out, i.e. after the call (the language leaves the order open).  When the call can
+// change p.f the two differ (processAKE: `c.ake.state, ... = c.ake.state.receiveX(c, msg)` where
+// the callee replaces c.ake).  govc follows gc: a load that only feeds the address of stores in
+// the same block and is separated from the store by a call is re-read at the store.
+func (fr *Frame) lateAddr(v ssa.Value, store *ssa.Store, st *State) (*Term, bool) {
+	fa, ok := v.(*ssa.FieldAddr)
+	if !ok || fa.Block() != store.Block() {
+		return nil, false
+	}
+	ld, ok := fa.X.(*ssa.UnOp)
+	if !ok || ld.Op != token.MUL || ld.Block() != store.Block() {
+		return nil, false
+	}
+	// the load must be used only to form addresses that are only stored through
+	for _, r := range *ld.Referrers() {
+		if _, isDbg := r.(*ssa.DebugRef); isDbg {
+			continue
+		}
+		a, ok := r.(*ssa.FieldAddr)
+		if !ok {
+			return nil, false
+		}
+		for _, r2 := range *a.Referrers() {
+			if _, isDbg := r2.(*ssa.DebugRef); isDbg {
+				continue
+			}
+			if s2, ok := r2.(*ssa.Store); !ok || s2.Addr != ssa.Value(a) {
+				return nil, false
+			}
+		}
+	}
+	// a call between the load and the store
+	call := false
+	seenLoad := false
+	for _, insn := range store.Block().Instrs {
+		if insn == ssa.Instruction(ld) {
+			seenLoad = true
+			continue
+		}
+		if insn == ssa.Instruction(store) {
+			break
+		}
+		if seenLoad {
+			if _, isCall := insn.(ssa.CallInstruction); isCall {
+				call = true
+			}
+		}
+	}
+	if !call {
+		return nil, false
+	}
+	if _, ok := fr.vals[ld.X]; !ok {
+		return nil, false
+	}
+	base := st.load(fr.val(ld.X), ld.Type())
+	fr.obl("nil", store.Pos(), Neq(base, Null), "C13")
+	sT := fa.X.Type().Underlying().(*types.Pointer).Elem()
+	return FldRef(base, fa.Field, structInfo(sT).Key), true
 }
